@@ -3,7 +3,7 @@
    Ports/PathModel.v, Ports/NameModel.v, proofs in Ports/PathProofs.v. *)
 From Coq Require Import List ZArith.
 From Coq Require Import Permutation Sorting.Sorted.
-From RtoscV Require Import Osc.OscModel Osc.OscReadProofs Ports.MetaModel Ports.NameModel Ports.PathModel
+From RtoscV Require Import Match.PatSpec Match.MatchModel Osc.OscModel Osc.OscReadProofs Ports.MetaModel Ports.NameModel Ports.PathModel
                            Ports.PathProofs Ports.SearchProofs Ports.PathRegress Ports.WalkModel Ports.WalkProofs Ports.LookupProofs.
 Import ListNotations.
 Local Open Scope Z_scope.
